@@ -8,6 +8,7 @@
 #include <mesh.h>
 #include <interface.h>
 #include <geometry.h>
+#include <domain.h>
 #include <sensors.h>
 #include <danielsson.h>
 #include <assemble.h>
@@ -104,6 +105,47 @@ static FWire c09(Reader& r) {
             for (auto& e : row) { o.push_back(e.first); f.push_back(e.second); }
         }
         return FWire{o,f};
+    }
+    if (op==6 || op==7) {
+        // soup-level geometry built in memory: only domains(), conductivity(), boundaries(), interface() are used
+        double den=(double)r.z();
+        Vect3 p=getV(r,den);
+        Soup s; readVerts(r,den,s.V); readMeshes(r,s);
+        size_t ni=r.n(); std::vector<Interface> ifs;
+        for (size_t k=0;k<ni;++k) {
+            Interface I("I"+std::to_string(k)); size_t nm=r.n();
+            for (size_t j=0;j<nm;++j) { size_t m=r.n(); if (m>=s.M.size()) throw Reader::Malformed(); I.oriented_meshes().push_back(OrientedMesh(*s.M[m],OrientedMesh::Normal)); }
+            ifs.push_back(I);
+        }
+        Geometry g; size_t nd=r.n(); bool any=false;
+        for (size_t k=0;k<nd;++k) {
+            Domain d("D"+std::to_string(k)); ll sg=r.z(); d.set_conductivity((double)sg); size_t nb=r.n();
+            for (size_t j=0;j<nb;++j) { size_t i=r.n(); if (i>=ifs.size()) throw Reader::Malformed(); d.boundaries().push_back(SimpleDomain(ifs[i],SimpleDomain::Inside)); if (sg==0 && !ifs[i].oriented_meshes().empty()) any=true; }
+            g.domains().push_back(d);
+        }
+        if (!any) return FWire{Wire{4},{}};                       // no boundary to scan: the code dereferences null
+        Vect3 al;
+        const auto& res=dist_point_geom(p,g,al);
+        const Triangle& T=std::get<1>(res);
+        Wire o{ST_OK,atoll(std::get<3>(res).name().c_str()+1)};
+        for (int j=0;j<3;++j) o.push_back((ll)T.vertex(j).index());
+        return FWire{o,{al(0),al(1),al(2),std::get<0>(res)}};
+    }
+    if (op==8) {
+        // probe: the triangle lists of the loaded geometry (mesh "m<k>"), as wire vertex ids in loaded order
+        ll gid=r.z(); double den=(double)r.z();
+        std::vector<Vertex> V; readVerts(r,den,V);
+        std::string dir="g"+std::to_string(gid)+"/";
+        Geometry geo(dir+"model.geom",dir+"model.cond");
+        std::vector<const Mesh*> ms(geo.meshes().size(),nullptr);
+        for (const auto& m : geo.meshes()) { size_t k=(size_t)atoll(m.name().c_str()+1); if (k<ms.size()) ms[k]=&m; }
+        Wire o{ST_OK,(ll)ms.size()};
+        for (const Mesh* m : ms) {
+            if (!m) throw Reader::Malformed();
+            o.push_back((ll)m->triangles().size());
+            for (const auto& t : m->triangles()) for (int j=0;j<3;++j) o.push_back(vid(V,t.vertex(j)));
+        }
+        return FWire{o,{}};
     }
     if (op==5) {
         size_t n=r.n(); std::vector<size_t> ls; std::vector<ll> ws;
